@@ -133,8 +133,51 @@ def env_at(fn, ctx):
     return {p: dict(st) for p, st in at.items()}
 
 
+def gated_value(fn, ctx, d, at_node):
+    """value of local d at `at_node` when it is  `T v = a; if (c) v = b;`  (one conditional overwrite before the use, both in the
+    statement list that contains the use): returns ("cond", c, b, a), or None when the shape is different."""
+    dv = ctx.decls.get(d)
+    if not dv or dv.get("init") is None or "declnode" not in dv:
+        return None
+    muts = [m for m in ctx.mut.get(d, []) if m != dv["declnode"]]
+    if len(muts) != 1:
+        return None
+    m = muts[0]
+    mn = fn.nodes[m]
+    if mn["k"] == "bin" and mn["op"] == "=":
+        rhs = mn["r"]
+    elif mn["k"] == "call" and mn.get("ck") == "op" and mn.get("op") == "=" and len(mn["args"]) == 2:
+        rhs = mn["args"][1]
+    else:
+        return None
+    # the assignment is the whole then-branch (possibly in a block) of an if without else
+    pm = fn.parent_map()
+    par = pm.get(m)
+    if par is not None and fn.nodes[par]["k"] == "block" and len([x for x in fn.nodes[par]["body"] if x is not None and fn.nodes[x]["k"] != "null"]) == 1:
+        par2 = pm.get(par)
+        child = par
+    else:
+        par2, child = par, m
+    if par2 is None or fn.nodes[par2]["k"] != "if" or fn.nodes[par2].get("then") != child or fn.nodes[par2].get("else") is not None:
+        return None
+    IF = par2
+    # decl, the if and the use are in straight-line order: decl dominates if, if dominates use, nothing else writes d
+    pd, pi, pu = fn.cfg.pos1(dv["declnode"]), fn.cfg.pos1(fn.nodes[IF]["c"]), fn.cfg.pos1(at_node)
+    if None in (pd, pi, pu) or not (fn.cfg.dominates(pd, pi) and fn.cfg.dominates(pi, pu)):
+        return None
+    if any(x == at_node for x, _ in fn.walk(IF)):
+        return None
+    return ("cond", ctx.key(fn.nodes[IF]["c"]), ctx.key(rhs), ctx.key(dv["init"]))
+
+
 def value_key(fn, ctx, envs, node, at_node=None):
     """key of expression `node` with re-assigned variables replaced by their value at the position of `at_node`."""
     p = fn.cfg.pos1(at_node if at_node is not None else node)
     env = envs.get(p, {}) if p is not None else {}
-    return resolve_index(_subst(ctx.key(node), env))
+    k = resolve_index(_subst(ctx.key(node), env))
+    # locals that are overwritten under one condition before the use: v = a; if (c) v = b;  ->  c ? b : a
+    def gate(x):
+        if x[0] == "var" and x[1] not in env and ctx.mut.get(x[1]):
+            return gated_value(fn, ctx, x[1], at_node if at_node is not None else node)
+        return None
+    return key_subst(k, gate)
